@@ -46,7 +46,7 @@ def run_driver(module, prop, tier, seed, only=None, timeout=None):
                                dir=os.path.join(VERIF, '.work'))
     os.close(fd)
     env = dict(os.environ)
-    env['PYTHONPATH'] = VERIF + os.pathsep + env.get('PYTHONPATH', '')
+    env['PYTHONPATH'] = VERIF + os.pathsep + REPO + os.pathsep + env.get('PYTHONPATH', '')
     env['SC3_VERIF'] = '1'
     env['VERIF_TIER'] = tier
     env['VERIF_SEED'] = str(seed)
@@ -119,7 +119,7 @@ def do_replay(prop, path):
         sys.exit(rc)
     mod = case.get('driver') or ('vf.drivers.' + prop)
     env = dict(os.environ)
-    env['PYTHONPATH'] = VERIF + os.pathsep + env.get('PYTHONPATH', '')
+    env['PYTHONPATH'] = VERIF + os.pathsep + REPO + os.pathsep + env.get('PYTHONPATH', '')
     env['SC3_VERIF'] = '1'
     p = subprocess.run([PY_REPO, '-m', mod, '--replay', path], cwd=VERIF,
                        env=env)
